@@ -221,8 +221,10 @@ pub fn run_one(b: u64, kind: &str, labels: &[String], seed: u64) -> Value {
                 for (k, t, sig) in list {
                     let ok = crypto::verify(k, &crypto::announce_signable(&target, *t), sig);
                     let from = t.checked_sub(1_000_000).map(|d| (d / 1000).min(1 << 40) as i64).unwrap_or(-1);
-                    let label = if from >= 0 && (from as usize) < labels.len() { labels[from as usize].clone() } else { "unknown".into() };
-                    yielded.push(json!({"verified": ok, "from": from, "label": label}));
+                    // records stamped relative to the reader's clock (labels time_*) are genuine records of the victim
+                    let timed = labels.iter().any(|l| l.starts_with("time_")) && (*k == pk || *k == opk);
+                    let label = if from >= 0 && (from as usize) < labels.len() { labels[from as usize].clone() } else if timed { "authentic".into() } else { "unknown".into() };
+                    yielded.push(json!({"verified": ok, "from": if timed && !(from >= 0 && (from as usize) < labels.len()) { -1 } else { from }, "label": label}));
                 }
             }
             Item::Peers(_) => {}
@@ -254,6 +256,20 @@ pub fn run(args: &Args) -> i32 {
                 if samples.len() < 3 && b % 97 == 11 {
                     samples.push(ev.clone());
                 }
+                out.line(&ev);
+                b += 1;
+            }
+        }
+    }
+    // announcers whose clocks are not the reader's: genuinely signed records stamped behind / ahead of it (what is yielded must
+    // still verify: key, timestamp and signature as signed)
+    if args.get("in").is_some() && args.get("no-times").is_none() {
+        for t in ["time_past_1h", "time_now", "time_future_1s", "time_future_45s", "time_future_1h", "time_zero", "time_max", "time_negative"] {
+            for pos in 0..2usize {
+                let mut labels: Vec<String> = vec!["authentic".to_string(), "bad_sig".to_string(), "authentic".to_string()];
+                labels[pos * 2] = t.to_string();
+                let ev = run_one(b, "signed_peers", &labels, seed);
+                nontrivial += 1;
                 out.line(&ev);
                 b += 1;
             }
